@@ -11,20 +11,20 @@ NOTE = ("Trusted: the reference model / codec / journal in /verif/harness (writt
 T = {
  "C01": ("exploration", "Runtime monitor: the real store and an in-memory reference Raft log are driven in lock-step over seeded Raft-legal histories under random chunk configurations; state, full read, random sub-range reads and stat() are compared after every operation. 'Held on the N histories observed' is the right level for a property quantified over histories x configurations whose bugs are off-by-ones at rotation/truncate/purge boundaries.", "reference-model lock-step monitor over generated histories"),
  "C02": ("exploration", "Runtime monitor: same lock-step oracle with clean restarts at random positions and a new random configuration at every open; state, entries and Dump text are compared across each restart and the history continues against the model.", "reference-model monitor across clean restarts, new config per open"),
- "C03": ("fault_enumeration", "Runtime monitor over recorded syscall traces: every prefix of the trace of a scheduled history is turned into process-crash, inside-write and power-loss images; each distinct image is opened by the real recovery code and the recovered (state, entries) must be the reference log after a prefix p with acked <= p <= issued. Enumerates the crash points and the image families of the stated crash model for the executions produced; schedules and histories are sampled.", "syscall-trace prefixes -> crash images -> real open -> prefix lookup in the reference model"),
- "C04": ("fault_enumeration", "Runtime monitor: offline checker over the trace + shadow file system of scheduled histories with injected fdatasync/write failures (singles, consecutive pairs/triples, short/partial writes): at every Ack(Ok) everything journalled before that flush call must be durable in its file; at-most-once, exactly-once without faults, order.", "shadow-FS durability rule at every Ack event under EIO plans"),
- "C05": ("fault_enumeration", "Same crash-image enumeration as C03: the real open must return Ok on every image (no Err, no panic), the recovered store must take 8 more writes + flush + restart in agreement with the model, and crash images of traced recoveries must open too. One genuine defect (D6) is recorded as a known finding and matched by its exact witness signature.", "crash images -> real open must succeed + continuation + crash during recovery"),
- "C06": ("exploration", "Runtime monitor: calls the sequential specification rejects are injected into legal histories; a before/after snapshot (state, entries, cache counters, resident set via hook H1, journal end, on-disk size) must be identical, the history continues in lock-step and a final flush+restart must open with the same state.", "snapshot-diff monitor around model-rejected calls + restart"),
- "C07": ("exploration", "Runtime monitor: under tiny cache limits the worker is stepped through its file-system calls by an in-binary gate; at every point where it is parked or idle all live entries are read (range read + snapshot iteration) and compared with the model; reader threads read concurrently with a free-running worker. Thorough adds Miri (UB / data-race detector, 3 histories x 8 scheduler seeds) on a scaled-down concurrent-read workload; Miri being unavailable is recorded and never changes the verdict. Known findings D7a/D7b matched by exact signature.", "reads at every worker stall point under tiny caches, 4 concurrent readers; Miri in thorough"),
- "C08": ("fault_enumeration", "Runtime monitor: offline checker at every unlink event of scheduled, purge-heavy, fault-injected histories: oldest first, nothing live inside the deleted chunk, durable remainder below the scheduling flush self-contained (replayed with the reference codec + model); end-state check on the directory.", "trace rule at every unlink over the shadow FS + end-state check"),
- "C09": ("fault_enumeration", "Runtime monitor: every byte of every complete record of store-made images is replaced (quick 12 values, thorough all 255: exhaustive per image) and every middle chunk removed; the real open must report, never panic, never succeed silently, and a refused open must leave older chunks untouched. Known findings D11a/D11b matched by exact signature.", "per-byte mutation sweep of store-made images, files-unchanged check"),
- "C10": ("fault_enumeration", "Runtime monitor: every cut position of the newest chunk and zero tails of 16 lengths from every record boundary, with truncation enabled (exact prefix recovered, file cut back, continuation) and disabled (refused, untouched; boundary cuts open).", "exhaustive cut / zero-tail sweep per image, both truncate settings"),
+ "C03": ("fault_enumeration", "Runtime monitor over recorded syscall traces: every prefix of the trace of a scheduled history is turned into process-crash, inside-write and power-loss images; each distinct image is opened by the real recovery code and the recovered (state, entries) must be the reference log after a prefix p with acked <= p <= issued. Enumerates the crash points and the image families of the stated crash model for the executions produced; schedules and histories are sampled. In addition real crashes: child processes running generated histories are killed with SIGKILL at seeded points and the directories they leave are recovered (process-crash half of the model under the real scheduler), and a crash right after a full request queue (1025 flushes) was drained and acknowledged.", "syscall-trace prefixes -> crash images -> real open -> prefix lookup in the reference model"),
+ "C04": ("fault_enumeration", "Runtime monitor: offline checker over the trace + shadow file system of scheduled histories with injected fdatasync/write failures (singles, consecutive pairs/triples, short/partial writes): at every Ack(Ok) everything journalled before that flush call must be durable in its file; at-most-once, exactly-once without faults, order. A full-queue scenario (1024 queued flushes + one blocked sender, up to 6 MiB) is checked with the same rules; a failed flush call or a request lost by the worker (worker asleep with requests unprocessed) is a violation.", "shadow-FS durability rule at every Ack event under EIO plans"),
+ "C05": ("fault_enumeration", "Same crash-image enumeration as C03: the real open must return Ok on every image (no Err, no panic), the recovered store must take 8 more writes + flush + restart in agreement with the model, and crash images of traced recoveries must open too. One genuine defect (D6) is recorded as a known finding and matched by its exact witness signature. In addition real SIGKILLs of child processes running generated histories and a crash right after a drained full request queue; every workload runs with a logger at Trace level.", "crash images -> real open must succeed + continuation + crash during recovery"),
+ "C06": ("exploration", "Runtime monitor: calls the sequential specification rejects are injected into legal histories; a before/after snapshot (state, entries, cache counters, resident set via hook H1, journal end, on-disk size) must be identical, the history continues in lock-step and a final flush+restart must open with the same state. A second Types instantiation with a partially ordered vote, and bursts of limit arguments that the specification refuses.", "snapshot-diff monitor around model-rejected calls + restart"),
+ "C07": ("exploration", "Runtime monitor: under tiny cache limits the worker is stepped through its file-system calls by an in-binary gate; at every point where it is parked or idle all live entries are read (range read + snapshot iteration) and compared with the model; reader threads read concurrently with a free-running worker. Thorough adds Miri (UB / data-race detector, 3 histories x 8 scheduler seeds) on a scaled-down concurrent-read workload; Miri being unavailable is recorded and never changes the verdict. Known findings D7a/D7b matched by exact signature. Also held snapshots iterated later and twice, records of 130-600 kB read by up to 8 threads, crash-restarts under tiny caches, the full-queue scenario.", "reads at every worker stall point under tiny caches, 4 concurrent readers; Miri in thorough"),
+ "C08": ("fault_enumeration", "Runtime monitor: offline checker at every unlink event of scheduled, purge-heavy, fault-injected histories: oldest first, nothing live inside the deleted chunk, durable remainder below the scheduling flush self-contained (replayed with the reference codec + model); end-state check on the directory. Fault plans include failing unlinks; some histories end with a purge that is never flushed followed by the drop of the store.", "trace rule at every unlink over the shadow FS + end-state check"),
+ "C09": ("fault_enumeration", "Runtime monitor: every byte of every complete record of store-made images is replaced (quick 12 values, thorough all 255: exhaustive per image) and every middle chunk removed; the real open must report, never panic, never succeed silently, and a refused open must leave older chunks untouched. Known findings D11a/D11b matched by exact signature. Also images with purged chunk files still present, images with a multi-kilobyte last record, bytes altered underneath an open store, truncation disabled, the offline Dump tool.", "per-byte mutation sweep of store-made images, files-unchanged check"),
+ "C10": ("fault_enumeration", "Runtime monitor: every cut position of the newest chunk and zero tails of 16 lengths from every record boundary, with truncation enabled (exact prefix recovered, file cut back, continuation) and disabled (refused, untouched; boundary cuts open). Also zero tails under a second Types instantiation whose vote decoder has its own validity check.", "exhaustive cut / zero-tail sweep per image, both truncate settings"),
  "C11": ("exploration", "Runtime monitor: a byte-exact reference journal (independent codec + rotation rule) is predicted from the accepted records; after every flush+ack+idle the directory is compared byte-for-byte, names/abutment/on_disk_size/Dump are checked, every returned segment is compared with the predicted place of its record; the file-name codec is round-tripped on boundary and random u64.", "byte-exact reference journal vs directory, returned segments, Dump differential"),
  "C12": ("exploration", "Runtime monitor: differential test of the crate's codec against an independent reference codec on generated records and on mutants / arbitrary bytes under catch_unwind (~10^7 decodes); thorough adds Miri runs of the same oracles on a reduced input set (supplementary: the crate has no unsafe code).", "two-codec differential + mutation totality; Miri in thorough"),
- "C13": ("exploration", "Runtime monitor: threads (online owner counter) and child processes (ownership intervals on CLOCK_MONOTONIC merged offline) contend for one directory; at most one owner at any time, refused attempts leave chunk files byte-identical, open succeeds once everybody is gone.", "owner-interval overlap monitor, threads online + processes offline"),
+ "C13": ("exploration", "Runtime monitor: threads (online owner counter) and child processes (ownership intervals on CLOCK_MONOTONIC merged offline) contend for one directory; at most one owner at any time, refused attempts leave chunk files byte-identical, open succeeds once everybody is gone. Further rounds: owner in another process, path aliases of the directory, owner whose worker has ended on an I/O error, second open after a hand-over, forked child holding inherited descriptors, a writing owner stepped by the gate.", "owner-interval overlap monitor, threads online + processes offline"),
  "C14": ("exploration", "Runtime monitor: the worker is stepped until the last flush's callback fired and is parked in front of its queued unlinks; the store is dropped on a helper thread and reopened at seeded placements relative to the old worker's remaining steps. Trace rule: no directory mutation by the dropped instance's worker after drop returned; reopen shows the acknowledged state; the new instance's purge+flush is acknowledged.", "trace ordering rule (old-worker mutation after DropEnd) + reopen placements"),
- "C15": ("exploration", "Runtime monitor: hook H1 (resident set under the cache lock) vs stat() at every point where the worker is parked or idle; limit clause right after appends; drain clause at the end and after reopen.", "stat vs resident-set hook at quiescent points"),
- "C16": ("exploration", "Runtime monitor: catch_unwind + panic hook around every public call, in a build with overflow checks and debug assertions, with arguments at the integer limits and around purged/last in reachable states.", "catch_unwind around limit-argument calls, overflow checks on"),
+ "C15": ("exploration", "Runtime monitor: hook H1 (resident set under the cache lock) vs stat() at every point where the worker is parked or idle; limit clause right after appends; drain clause at the end and after reopen. Also large-chunk rounds (boundary jumping over a whole chunk) and walks in which update_state re-inserts resident ids.", "stat vs resident-set hook at quiescent points"),
+ "C16": ("exploration", "Runtime monitor: catch_unwind + panic hook around every public call, in a build with overflow checks and debug assertions, with arguments at the integer limits and around purged/last in reachable states. Also concurrent rounds (readers + drainer), a partially ordered vote type, and walks of 20-60 calls in which update_state is an ordinary step.", "catch_unwind around limit-argument calls, overflow checks on"),
 }
 
 def main():
